@@ -247,7 +247,7 @@ def run(rep, tier):
     G = drivers.load()
     rep.rule = ("Hypothesis agent identities and histories: engine id 5..32 octets; {discovered, given} x {with, refresh(), none} x "
                 "{sync, async} x auth x priv x key types; boots/time change on every reply over all INTEGER widths; Reports with own / "
-                "empty / foreign contextEngineID; foreign-engine replies injected. Non-trivial = history with discovery plus >=2 later "
+                "empty / foreign contextEngineID; injected replies that must be rejected without moving the view (foreign engine, foreign Report, below the security level, bad MAC - also as the only answer); first discovery probe lost and refresh() retried. Non-trivial = history with discovery plus >=2 later "
                 "replies whose boots/time differ; distinct by the whole case.")
     rep.assumptions = ["keys of type 'localized' are derived by the caller for the agent's engine id", "reference crypto refusm.py"]
 
